@@ -7,7 +7,7 @@ ROOT = os.path.dirname(os.path.dirname(os.path.abspath(__file__)))
 CLAIMED = {
  "C04": dict(
    category="exploration",
-   technique="property-based testing (rapid) with a metamorphic oracle on PostgreSQL token sequences (scan.l-conformant lexer), value read-back, recursion into SQL passed as text, real pgx named-argument rewriter; native fuzz target FuzzC04",
+   technique="property-based testing (rapid) with a metamorphic oracle on PostgreSQL token sequences (scan.l-conformant lexer), value read-back, recursion into SQL passed as text, real pgx named-argument rewriter; coverage-guided native fuzz target FuzzC04 (60 s) in the thorough tier",
    text="Generated hostile values (quotes, doubled quotes, backslashes, comment openers, dollar quotes, backticks, control and non-BMP runes, CR/LF/U+2028, U+FFFD, up to 64 KiB) x 116 query templates over literal / LIKE / property-key / kind / variable / alias / parameter positions incl. shortestPath and allShortestPaths (whose values are materialised into SQL text handed to the harness functions). Each query is translated with the hostile value and with a benign twin; the PostgreSQL token sequences must be equal except at the slot, which must be ONE string / identifier token whose decoded value equals what the Cypher text denotes (computed independently); the rule recurses into SQL carried in strings; parameters must pass through unchanged; the real pgx.NamedArgs rewriter must see exactly the same placeholders; the FromCypher comment header must lex as comments only.",
    note="PostgreSQL's lexer is modelled by sqltok (written from scan.l, standard_conforming_strings=on; UESCAPE and non-UTF-8 encodings not modelled); invalid UTF-8 and NUL are outside the domain; unescaped %/_ inside the value's own span are C01 territory; four open findings excluded by construction (alias case folding, 63-byte alias truncation, backticked kind names, LIKE on function operands).",
    design="§4 C04"),
@@ -25,13 +25,13 @@ CLAIMED = {
    design="§4 C06"),
  "C07": dict(
    category="exploration",
-   technique="property-based testing (rapid): grammar-derivation, corpus-mutation and sibling generators; round-trip (emit-parse fixed point) and metamorphic (content-token multiset, single-token sibling) oracles",
+   technique="property-based testing (rapid): grammar-derivation, corpus-mutation and sibling generators; round-trip (emit-parse fixed point) and metamorphic (content-token multiset, single-token sibling, spelling-synonym) oracles; coverage-guided native fuzz target FuzzC07 (90 s) in the thorough tier",
    text="For every generated text accepted by frontend.ParseCypher(NewContext()): emit-parse is a fixed point with structurally equal models, the multiset of content tokens (names, literals by value, keywords, operators, range bounds - taken with DAWGS's own ANTLR lexer) of the input equals that of the emitted text up to a stated list of openCypher notational equivalences, and a sibling text differing in one meaning-bearing token has a different model. Texts come from random derivations of the shipped Cypher.g4 (all parser rules, unsupported constructs included), the whole query corpus of the tree (enumerated) and token mutations of it. Sampling: the accepted language is infinite; the failures found (16 fixed) were all shallow.",
    note="The notational-equivalence list (*.. = *, *n = *n..n, <--> = --, repeated kinds, reserved words as schema names, ASC default, grouping punctuation) is part of the trusted base; rejected inputs carry no obligation here (C08); acceptance rate of grammar derivations ~20-25%.",
    design="§4 C07"),
  "C08": dict(
    category="exploration",
-   technique="property-based testing / generated-input robustness (rapid): raw lexeme soup, corpus mutations, every corpus prefix (enumerated), grammar derivations; totality + result-shape oracle; allocation-growth measurement on size families",
+   technique="property-based testing / generated-input robustness (rapid): raw lexeme soup, corpus mutations, every corpus prefix (enumerated), grammar derivations; totality + result-shape oracle; allocation-growth measurement on size families; coverage-guided native fuzz target FuzzC08 (90 s) in the thorough tier",
    text="Generated byte strings (random lexeme/rune/byte concatenations incl. invalid UTF-8, 1-3 token/byte mutations of corpus queries, every prefix of corpus queries, grammar derivations) are parsed under NewContext() and DefaultCypherContext(): no panic, never (nil,nil), blank input rejected, and a model returned with a nil error must be printable by the emitter and walkable. 'Bounded' is decided by a deterministic allocation-count growth exponent (n vs 4n) over 20 size-parameterised nesting/chain families, not by wall clock.",
    note="Inputs up to a few KB (families up to 4000 repetitions in thorough); stack exhaustion at megabyte-deep nesting is outside the explored bound; 'not partially built' is read as 'printable and walkable'.",
    design="§4 C08"),
@@ -103,7 +103,7 @@ CLAIMED = {
    design="§4 C19"),
  "C20": dict(
    category="fault_enumeration",
-   technique="property-based fault enumeration: enumerated byte/truncation sweeps and rapid-generated structural mutations with shrinking and replay; oracles = fakedb mutation log, sandbox tree hash, graph isomorphism, portable tar-stream model; native fuzz target FuzzC20 for manual runs",
+   technique="property-based fault enumeration: enumerated byte/truncation sweeps and rapid-generated structural mutations with shrinking and replay; oracles = fakedb mutation log, sandbox tree hash, graph isomorphism, portable tar-stream model; coverage-guided native fuzz target FuzzC20 (60 s) in the thorough tier",
    text="Every byte position and every truncation length of small dumps, their tar and HPKE archives and key files (all codecs), plus enumerated fragment/frame operations, generated manifest edits (35 kinds, hostile paths), hostile tar streams (absolute/parent/volume/backslash names, links, devices, FIFOs, oversize/lying sizes, duplicates, PAX records) and wrong/malformed keys, each driven through Load, UnpackTar, UnpackEncryptedCollectionArchive, Unpack and Load(ArchiveReader) inside a hashed sandbox with a logging in-memory database: an error must come before any node/relationship write, nothing outside the output directory may change, owners of a destination leave no partial output, success is accepted only with the identical tree / an isomorphic graph, an encrypted archive opens only with the matching key.",
    note="quick: all positions of the smallest dump directory and of the private key file, strided tar/archive, sampled rest; thorough: all positions x 2 masks x all 12 fixtures across 8 shards. 'No partial output' asserted for Unpack and Load(ArchiveReader) only (the building blocks extract straight into the directory they are handed); unsigned manifest: an accepted mutation must give an identical result; effects observed on Linux with a portable POSIX+Windows name model; disk exhaustion (sparse expansion) not judged.",
    design="§4 C20"),
